@@ -258,14 +258,16 @@ def collectLoop (now : Int) : Nat → CL → CL
 the theorems hold for every fuel value -/
 def collectFuel : Nat := 1000000
 
-/-- one locked section of `runLoop` that calls `collectDueLocked` and pre-announces `_executingCallbacks`; enabled when the
-loop thread is not busy with handlers and has not exited.  With `_running == false` it is the exit branch. -/
-def collect (s : Svc) (now : Int) : Svc × List Hnd × List Rec :=
-  if s.exited || s.exiting || !s.ready.isEmpty || s.inflight.isSome then (s, [], [])
+/-- one of the two locked sections of `runLoop` that call `collectDueLocked` and pre-announce `_executingCallbacks`; enabled when the
+loop thread is not busy with handlers and has not exited.  `atExit = false`: the section after `epoll_wait` (the loop goes on);
+`atExit = true`: the section at the top of the loop when `_running` is false (`shouldExit`): after running what it collected the
+loop thread leaves.  The C++ can run the first and then the second in one pass of the loop; both hand their handlers to `safeRun`. -/
+def collect (s : Svc) (now : Int) (atExit : Bool := false) : Svc × List Hnd × List Rec :=
+  if s.exited || s.exiting || !s.ready.isEmpty || s.inflight.isSome || (atExit && s.running) then (s, [], [])
   else
     let r := collectLoop now collectFuel { records := s.records, periodic := s.periodic, heap := s.heap }
     ({ s with records := r.records, periodic := r.periodic, heap := r.heap,
-              ready := r.out, executing := s.executing + r.out.length, exiting := !s.running }, r.out, r.dropped)
+              ready := r.out, executing := s.executing + r.out.length, exiting := atExit }, r.out, r.dropped)
 
 inductive StartOut where
   | none                      -- nothing to start
@@ -351,7 +353,7 @@ inductive Op where
   | schedAt (now tp : Int)
   | schedPer (now interval : Int)
   | cancel (id : Nat)
-  | collect (now : Int)
+  | collect (now : Int) (atExit : Bool)
   | hstart
   | hend
   | loopExit
@@ -377,7 +379,7 @@ def step (L : Limits) (s : Svc) : Op → Svc × Out
   | .schedAt now tp => let r := scheduleAt L s now tp; (r.1, .id r.2)
   | .schedPer now iv => let r := schedulePeriodic L s now iv; (r.1, .id r.2)
   | .cancel id => let r := cancel s id; (r.1, .bool r.2)
-  | .collect now => let r := collect s now; (r.1, .collected r.2.1 r.2.2)
+  | .collect now ax => let r := collect s now ax; (r.1, .collected r.2.1 r.2.2)
   | .hstart => let r := hstart s; (r.1, .start r.2)
   | .hend => (hend s, .none)
   | .loopExit => (loopExit s, .none)
@@ -423,6 +425,22 @@ def skippedOf : Op × Out → List Hnd
 def started (h : Hist) : List Hnd := h.flatMap startedOf
 def skipped (h : Hist) : List Hnd := h.flatMap skippedOf
 def collected (h : Hist) : List Hnd := h.flatMap collectedOf
+
+/-- ids handed out by `scheduleAt` (one-shot timers) -/
+def issued1Of : Op × Out → List Nat
+  | (.schedAt _ _, .id n) => if n = 0 then [] else [n]
+  | _ => []
+
+/-- ids for which a `cancel` step answered `true` -/
+def userCancelledOf : Op × Out → List Nat
+  | (.cancel id, .bool true) => [id]
+  | _ => []
+
+def issued1 (h : Hist) : List Nat := h.flatMap issued1Of
+def userCancelled (h : Hist) : List Nat := h.flatMap userCancelledOf
+
+/-- no `drain(timeoutMs > 0)` sweep among the steps (the hypothesis of `C08_S3b_partial`) -/
+def noSweep (ops : List Op) : Prop := ∀ op ∈ ops, ∀ now t, op = .drainSweep now t → t ≤ 0
 
 /-- what the CALLER asked for, from the history alone: for `scheduleAt(tp)` the pair `(tp, 0)`, for `schedulePeriodic(interval)`
 issued at clock `now` the pair `(now, interval)`; a firing `k` of that id is due at `t0 + k * iv` -/
